@@ -403,12 +403,16 @@ func c03CompareBackends(m *Model, q Query, a, b Obs) string {
 
 func (s *dualSys) Key() string {
 	d := vstate.NewDumper()
-	d.SkipTypes = []string{"cuelabs.dev/go/oci/ociregistry/ociclient.client", "verif/props.inprocTransport", "net/url.Userinfo"}
+	// client and server objects are part of the state (a cache inside either would be); per-instance
+	// counters and the harness transport's statistics are not
+	d.SkipTypes = []string{"net/url.Userinfo"}
+	d.SkipFields = map[string]bool{"debugID": true, "Requests": true, "Exceeded": true, "MaxRequests": true}
 	for i, h := range s.b.handles {
 		d.Add(fmt.Sprintf("hb%d", i), h)
 	}
 	d.Add("memA", s.memA)
 	d.Add("memB", s.memB)
+	d.Add("stack", s.b.reg)
 	return d.String() + "\nmodel=" + s.a.model.Key()
 }
 
